@@ -1,9 +1,9 @@
 CONSTANTS
-  NW = 2
-  MaxLive = 3
-  MaxStops = 2
-  Timeout = 3
-  MaxBlocks = 0
+  NW = 1
+  MaxLive = 1
+  MaxStops = 1
+  Timeout = 2
+  MaxBlocks = 1
   ForcedAwaitsWorkers = FALSE
   GracefulSkipsAwait = FALSE
   CompleteBeforeJoin = FALSE
@@ -11,8 +11,6 @@ CONSTANTS
   SecondStopHangs = FALSE
   AwaitsLastWorkerOnly = FALSE
   WakeAcceptFirst = FALSE
-SPECIFICATION Spec
-VIEW View
-INVARIANTS C06_GracefulWaits C06_GracefulLetsFinish C06_NoDispatchAfterCompletion C06_SignalKinds
-PROPERTIES Steps
+SPECIFICATION FairSpec
+PROPERTIES C06_AlwaysCompletes
 CHECK_DEADLOCK FALSE
